@@ -166,6 +166,34 @@ theorem C10_model_refines_spec_eq_partial (a b : PV) (ha : tame a = true) (hb : 
     · simp [lawEqHash]
     · simp [lawEqHash, C10_beq_hash_partial a b ha hb h2]
 
+/-- identity laws of the specification, for every pair (no exception): the order calls two values
+`Equal` only if they are the same value — whatever coarser equivalence one may have in mind
+(durations of equal length, numbers of equal value, arrays/vectors with equal components, maps
+with equal keys) — and then they feed the hasher the same words -/
+theorem C10_model_refines_spec_ident (a b : PV) :
+    lawOrdIdent (cmp a b) (same a b) = true
+    ∧ lawOrdHash (cmp a b) (decide (hashKey a = hashKey b)) = true := by
+  constructor
+  · by_cases h : a = b
+    · subst h; simp [lawOrdIdent, C10_cmp_refl, (same_iff a a).2 rfl]
+    · have h1 : cmp a b ≠ .eq := fun e => h ((C10_cmp_eq_iff_identical a b).1 e)
+      have h2 : same a b = false := by
+        cases hs : same a b
+        · rfl
+        · exact absurd ((same_iff a b).1 hs) h
+      cases hc : cmp a b <;> simp_all [lawOrdIdent]
+  · cases hc : cmp a b <;> simp [lawOrdHash]
+    exact C10_cmp_eq_hash a b hc
+
+/-- durations are compared field by field, so splits of one length stay distinct keys:
+`{seconds:1, nanos:-500000000}` vs `{seconds:0, nanos:500000000}`, `P1D` vs `PT86400S`,
+`P1M` vs `PT2629746S` -/
+example : cmp (.dur 0 0 1 (-500000000)) (.dur 0 0 0 500000000) = .gt
+    ∧ cmp (.dur 0 0 1 0) (.dur 0 0 0 1000000000) = .gt
+    ∧ cmp (.dur 0 1 0 0) (.dur 0 0 86400 0) = .gt
+    ∧ cmp (.dur 1 0 0 0) (.dur 0 0 2629746 0) = .gt
+    ∧ beq (.dur 0 0 1 (-500000000)) (.dur 0 0 0 500000000) = false := by decide
+
 /-- the pinned `cypher_order` inherited the cycle wherever it falls back to the index order
 (maps): `{a:-NaN} < {a:-1.0} < {a:0} < {a:-NaN}` -/
 theorem C10_counterexample_cypher_trans :
